@@ -257,7 +257,7 @@ Proof.
     + intros h H. rewrite Hl in H. inversion H; subst h. rewrite setp_same. reflexivity.
     + intros j. destruct (Nat.eq_dec j i) as [->|Hne].
       * rewrite setp_same. simpl. rewrite Ef. split; [exact Hfc|]. exists t. split; reflexivity.
-      * rewrite setp_other by exact Hne. rewrite <- Ef. apply (inv_pc s HI).
+      * rewrite setp_other by exact Hne. apply (inv_pc s HI).
     + intro H. rewrite Hl in H. discriminate.
     + apply (inv_log s HI).
   - (* RRead *)
@@ -285,6 +285,7 @@ Proof.
     + intros h H. rewrite Hl in H. inversion H; subst h. rewrite setp_same. reflexivity.
     + intros j. destruct (Nat.eq_dec j i) as [->|Hne].
       * rewrite setp_same. simpl. split; [exact Hfc|]. exists t. split; [exact Hf|].
+        change (c0 :: firstn k rest0) with (firstn (S k) (c0 :: rest0)).
         rewrite <- Erest. apply prefix_extend. exact Hacc.
       * rewrite setp_other by exact Hne. apply (inv_pc s HI).
     + intro H. rewrite Hl in H. discriminate.
@@ -385,6 +386,22 @@ Section Complete.
       rewrite H. apply (src_committed s HS).
   Qed.
 
+  Ltac src_go i HS Htodo Hc :=
+    eapply Src_update with (i := i); simpl;
+    [ exact HS
+    | let j0 := fresh "j" in let Hne0 := fresh "Hne" in
+      intros j0 Hne0; apply setp_other; exact Hne0
+    | apply setp_same
+    | first [ exact Htodo
+            | let y := fresh "y" in let Hy := fresh "Hy" in
+              intros y Hy; apply Htodo; right; exact Hy ]
+    | try exact I
+    | try exact Hc
+    | first [ let e := fresh "e" in let He := fresh "He" in
+              intros e [<-|He]; [right; reflexivity|left; exact He]
+            | let e := fresh "e" in let He := fresh "He" in
+              intros e He; left; exact He ] ].
+
   Theorem Src_step : forall d i g k s s', Src s -> step d i g k s = Some s' -> Src s'.
   Proof.
     intros d i g k s s' HS Hs. unfold step in Hs.
@@ -392,74 +409,24 @@ Section Complete.
     pose proof (src_todo s HS i) as Htodo. rewrite Ei in Htodo. simpl in Htodo.
     pose proof (src_pc s HS i) as Hsrc. rewrite Ei in Hsrc. simpl in Hsrc.
     assert (Hc := src_committed s HS).
-    assert (Hsame : forall p0 j, j <> i -> setp i p0 (procs s) j = procs s j)
-      by (intros; apply setp_other; assumption).
-    assert (Htl : forall x l, incl (x :: l) (progs i) -> incl l (progs i))
-      by (intros x l H y Hy; apply H; right; exact Hy).
+    destruct d as [wl rl]. simpl wlock in Hs. simpl rlock in Hs.
     destruct p as [|cs|cs|cs full| | |acc].
     - destruct todo as [|[cs|] todo']; [discriminate| |].
-      + inversion Hs; subst s'; clear Hs.
-        eapply Src_update with (i := i); simpl; eauto using setp_same.
+      + inversion Hs; subst s'; clear Hs. src_go i HS Htodo Hc.
         apply Htodo. left. reflexivity.
-      + destruct (file s); inversion Hs; subst s'; clear Hs;
-          (eapply Src_update with (i := i); simpl; eauto using setp_same).
-        * exact I.
-        * exact I.
-        * intros e [<-|He]; [right; reflexivity|left; exact He].
-    - destruct (wlock d); [destruct (lock s); [destruct g; [|discriminate]|]|];
-        inversion Hs; subst s'; clear Hs;
-        (eapply Src_update with (i := i); simpl; eauto using setp_same).
-      exact I.
-    - inversion Hs; subst s'; clear Hs.
-      eapply Src_update with (i := i); simpl; eauto using setp_same.
+      + destruct (file s); inversion Hs; subst s'; clear Hs; src_go i HS Htodo Hc.
+    - destruct wl; [destruct (lock s); [destruct g; [|discriminate]|]|];
+        inversion Hs; subst s'; clear Hs; src_go i HS Htodo Hc; exact Hsrc.
+    - inversion Hs; subst s'; clear Hs. src_go i HS Htodo Hc.
       exists cs. split; [exact Hsrc|reflexivity].
-    - destruct cs as [|ch cs]; inversion Hs; subst s'; clear Hs.
-      + eapply Src_update with (i := i); simpl.
-        * exact HS.
-        * intros j Hne. rewrite release_procs. simpl. apply Hsame, Hne.
-        * rewrite release_procs. simpl. apply setp_same.
-        * exact Htodo.
-        * exact I.
-        * destruct Hsrc as (cs0 & Hin & ->). right. exists i, cs0. split; [exact Hin|reflexivity].
-        * rewrite release_log. simpl. auto.
-      + eapply Src_update with (i := i); simpl; eauto using setp_same.
-    - destruct (rlock d); [destruct (lock s); [destruct g; [|discriminate]|]|];
-        inversion Hs; subst s'; clear Hs;
-        (eapply Src_update with (i := i); simpl; eauto using setp_same); try exact I.
-      intros e [<-|He]; [right; reflexivity|left; exact He].
-    - destruct (file s); inversion Hs; subst s'; clear Hs.
-      + eapply Src_update with (i := i); simpl; eauto using setp_same. exact I.
-      + eapply Src_update with (i := i); simpl.
-        * exact HS.
-        * intros j Hne. rewrite release_procs. simpl. apply Hsame, Hne.
-        * rewrite release_procs. simpl. apply setp_same.
-        * exact Htodo.
-        * exact I.
-        * rewrite release_committed. exact Hc.
-        * rewrite release_log, release_committed. simpl.
-          intros e [<-|He]; [right; reflexivity|left; exact He].
-    - destruct (file s) as [t|].
-      + destruct (skipn (List.length acc) t); inversion Hs; subst s'; clear Hs.
-        * eapply Src_update with (i := i); simpl.
-          -- exact HS.
-          -- intros j Hne. rewrite release_procs. simpl. apply Hsame, Hne.
-          -- rewrite release_procs. simpl. apply setp_same.
-          -- exact Htodo.
-          -- exact I.
-          -- rewrite release_committed. exact Hc.
-          -- rewrite release_log, release_committed. simpl.
-             intros e [<-|He]; [right; reflexivity|left; exact He].
-        * eapply Src_update with (i := i); simpl; eauto using setp_same. exact I.
-      + inversion Hs; subst s'; clear Hs.
-        eapply Src_update with (i := i); simpl.
-        * exact HS.
-        * intros j Hne. rewrite release_procs. simpl. apply Hsame, Hne.
-        * rewrite release_procs. simpl. apply setp_same.
-        * exact Htodo.
-        * exact I.
-        * rewrite release_committed. exact Hc.
-        * rewrite release_log, release_committed. simpl.
-          intros e [<-|He]; [right; reflexivity|left; exact He].
+    - destruct cs as [|ch cs]; [destruct wl|]; inversion Hs; subst s'; clear Hs;
+        src_go i HS Htodo Hc; try exact Hsrc;
+        (destruct Hsrc as (cs0 & Hin & ->); right; exists i, cs0; split; [exact Hin|reflexivity]).
+    - destruct rl; [destruct (lock s); [destruct g; [|discriminate]|]|];
+        inversion Hs; subst s'; clear Hs; src_go i HS Htodo Hc.
+    - destruct (file s); [|destruct rl]; inversion Hs; subst s'; clear Hs; src_go i HS Htodo Hc.
+    - destruct (file s) as [t|]; [destruct (skipn (List.length acc) t); [destruct rl|]|destruct rl];
+        inversion Hs; subst s'; clear Hs; src_go i HS Htodo Hc.
   Qed.
 
   Lemma Src_run : forall d sch s, Src s -> Src (run d sch s).
